@@ -183,7 +183,8 @@ pub fn try_parse_length_modifier(str: &str) -> ParseResult<'_, ()> {
 	}
 	let bytes = str.as_bytes();
 	let mut idx = 0;
-	while bytes[idx] == b'h' || bytes[idx] == b'l' || bytes[idx] == b'L' {
+	// At most one length modifier, as in Python
+	if bytes[idx] == b'h' || bytes[idx] == b'l' || bytes[idx] == b'L' {
 		idx += 1;
 		if bytes.len() == idx {
 			return Err(TruncatedFormatCode);
